@@ -993,7 +993,7 @@ def run(chk: Check):
     # evaluate_matrix_multiplication_operator, the eight __op__ methods, Format/Mode) is re-translated from /repo
     # on every run and PROVED equal to model/Operators.v (coq/props/TIE_operators.v) + translator self-check
     from props._tie import run_tie
-    run_tie(chk, ["operators"])
+    run_tie(chk, ["operators", 'compose'])
 
 
 def replay(chk: Check, payload: dict) -> int:
